@@ -11,8 +11,8 @@ import (
 	"os"
 	"sort"
 	"strings"
+	"time"
 
-	"github.com/bytom/bytom/protocol"
 	"github.com/bytom/bytom/protocol/bc"
 	"github.com/bytom/bytom/protocol/bc/types"
 
@@ -71,7 +71,7 @@ func world(thorough bool) {
 	t1 := labnet.Pay([]labnet.Out{P.U[0]}, labnet.Prog(0x71))
 	t2 := labnet.Pay([]labnet.Out{{Tx: t1, Idx: 0}}, labnet.Prog(0x72)) // child of t1
 	t3 := labnet.Pay([]labnet.Out{P.U[1]}, labnet.Prog(0x73))
-	t4 := labnet.Pay([]labnet.Out{P.U[0]}, labnet.Prog(0x74)) // conflicts with t1, confirmed on branch B
+	t4 := labnet.Pay([]labnet.Out{P.U[0]}, labnet.Prog(0x74))      // conflicts with t1, confirmed on branch B
 	t5 := labnet.Pay([]labnet.Out{P.Reward[7]}, labnet.Prog(0x75)) // spends a coinbase output: its spent entry stays in the store
 	txs = []*types.Tx{t1, t2, t3, t4, t5}
 	for i, t := range txs {
@@ -126,39 +126,9 @@ func runHist(h []int, _ json.RawMessage) (out xplore.Out) {
 		return xplore.Out{Viols: []xplore.Viol{{Key: "infra-newnode", What: err.Error()}}}
 	}
 	nd := in.Node
-	sub, err := nd.Disp.Subscribe(protocol.TxMsgEvent{})
+	mon, err := newMonitor(in, W, txName, &out, func(step int) []string { return describe(h[:step+1]) })
 	if err != nil {
 		return xplore.Out{Viols: []xplore.Viol{{Key: "infra-subscribe", What: err.Error()}}}
-	}
-	inPoolByEvents := map[bc.Hash]bool{}
-	var stream []string
-	drain := func(step int) {
-		for {
-			select {
-			case o := <-sub.Chan():
-				m, ok := o.Data.(protocol.TxMsgEvent)
-				if !ok {
-					continue
-				}
-				id := m.TxMsg.Tx.ID
-				switch m.TxMsg.MsgType {
-				case protocol.MsgNewTx:
-					stream = append(stream, "+"+txName[id])
-					if inPoolByEvents[id] {
-						viol("tx-added-twice-without-removal", fmt.Sprintf("second MsgNewTx(%s) without MsgRemoveTx in between; stream %v, history %v", txName[id], stream, describe(h[:step+1])))
-					}
-					inPoolByEvents[id] = true
-				case protocol.MsgRemoveTx:
-					stream = append(stream, "-"+txName[id])
-					if !inPoolByEvents[id] {
-						viol("tx-removed-without-addition", fmt.Sprintf("MsgRemoveTx(%s) without a preceding unpaired MsgNewTx; stream %v, history %v", txName[id], stream, describe(h[:step+1])))
-					}
-					inPoolByEvents[id] = false
-				}
-			default:
-				return
-			}
-		}
 	}
 	delivered := map[int]bool{0: true}
 	for step, ei := range h {
@@ -177,38 +147,7 @@ func runHist(h []int, _ json.RawMessage) (out xplore.Out) {
 			nd.Chain.ProcessBlockVerification(labnet.VoteMsg(W.Net.Keys[e.val], W.Net.Gen.Hash(), W.Blocks[a2].Hash()))
 		}
 		in.Quiesce()
-		drain(step)
-		// pool ∩ main chain = ∅
-		out.Checks++
-		best := nd.Chain.BestBlockHeader()
-		bi := W.Index(best.Hash())
-		confirmed := map[bc.Hash]string{}
-		for x := bi; x > 0; x = W.Parent[x] {
-			for _, t := range W.Blocks[x].Block.Transactions[1:] {
-				confirmed[t.ID] = W.Names[x]
-			}
-		}
-		for _, d := range nd.Pool.GetTransactions() {
-			if blk, ok := confirmed[d.Tx.ID]; ok {
-				viol("confirmed-tx-still-in-pool:after-"+e.kind, fmt.Sprintf("%s is in the pool and confirmed in main-chain block %s after %v", txName[d.Tx.ID], blk, describe(h[:step+1])))
-			}
-		}
-		// the event stream agrees with the pool content
-		ps := nd.Pool.VerifState()
-		for _, id := range ps.Pool {
-			if !inPoolByEvents[id] {
-				viol("pooled-tx-without-new-tx-event", fmt.Sprintf("%s pooled but the event stream says removed/never added: %v", txName[id], stream))
-			}
-		}
-		n := 0
-		for _, v := range inPoolByEvents {
-			if v {
-				n++
-			}
-		}
-		if n != len(ps.Pool) {
-			viol("event-stream-disagrees-with-pool", fmt.Sprintf("events say %d txs pooled, pool holds %d; stream %v after %v", n, len(ps.Pool), stream, describe(h[:step+1])))
-		}
+		mon.after(step, e.kind)
 	}
 	ps := nd.Pool.VerifState()
 	var pn []string
@@ -284,14 +223,33 @@ func main() {
 		}
 	}
 	world(thorough)
+	layoutWorld(thorough)
 	spec := &xplore.Spec{Name: "c23", Run: runHist, Recycle: 200, Describe: func(h []int) interface{} { return describe(h) }}
+	lspec := &xplore.Spec{Name: "c23-layout", Run: runLayout, Recycle: 200, Describe: func(h []int) interface{} { return describeLayout(h) }}
 	if par.IsWorker() {
-		xplore.Worker(spec)
+		xplore.Worker(spec, lspec)
 	}
 	run := ev.Start("C23", "model_checking")
 	spec.MaxDepth = len(events) + 1
-	st := xplore.BFS(run, spec)
-	concurrent(run)
+	t0 := time.Now()
+	// VERIF_C23_ONLY=layout (development aid): only the layout part; the run is then recorded as not exhaustive
+	only := os.Getenv("VERIF_C23_ONLY")
+	var st xplore.Stats
+	if only == "" {
+		st = xplore.BFS(run, spec)
+	} else {
+		run.Capped("VERIF_C23_ONLY=" + only + ": BFS and interleaving parts skipped")
+	}
+	t1 := time.Now()
+	ls := layoutPart(run, lspec)
+	run.Set("wall_s_bfs_part", t1.Sub(t0).Seconds())
+	run.Set("wall_s_layout_part", time.Since(t1).Seconds())
+	run.Set("layout_cases", ls.Transitions)
+	run.Set("layout_states", ls.States)
+	st.Checks += ls.Checks
+	if only == "" {
+		concurrent(run)
+	}
 	run.Set("states", st.States)
 	run.Set("transitions", st.Transitions)
 	run.Set("traces_validated_against_impl", st.Checks)
@@ -301,7 +259,8 @@ func main() {
 		all = append(all, i)
 	}
 	run.Set("events", describe(all))
-	run.Set("rule", "BFS over interleavings of transaction submissions (t2 child of t1, t4 conflicting with t1, t5 spending a coinbase output; second submissions of t1, t2 and t5, thorough: of every transaction), in-order block deliveries of two branches confirming overlapping subsets, and three votes that justify the shorter branch (reorganisation back); states merged on node digest + pool/orphan/error-cache content; after every event: no pooled transaction is confirmed on the main chain, the TxMsgEvent stream pairs each MsgNewTx with at most one later MsgRemoveTx and agrees with the pool content")
+	run.Set("rule", "BFS over interleavings of transaction submissions (t2 child of t1, t4 conflicting with t1, t5 spending a coinbase output; second submissions of t1, t2 and t5, thorough: of every transaction), in-order block deliveries of two branches confirming overlapping subsets, and three votes that justify the shorter branch (reorganisation back); states merged on node digest + pool/orphan/error-cache content; after every event: no pooled transaction is confirmed on the main chain, the TxMsgEvent stream pairs each MsgNewTx with at most one later MsgRemoveTx and agrees with the pool content. Layout part (flat, every case on a fresh node, same monitor): k independent transactions (quick 2, thorough 3); branch A = one block a with every ORDERED sub-list of them, branch B = two blocks b, b' with every ordered sub-list cut at every position (b' triggers the reorganisation a -> b-b'); each transaction independently never submitted / submitted before a / after a / after b; the node must end on b'")
+	run.Assume("layout part: the transactions are independent of each other (no parent/child inside the layouts; dependency and conflict are the BFS part's), one reorganisation per case, detached branch one block deep")
 	run.Assume("prelude of 16 blocks processed by the real node; OP_TRUE-style programs")
 	run.Finish()
 }
